@@ -801,7 +801,7 @@ fn plus_confusion(seed: u64, shard: u64, n: u64) -> Tally {
 /// replacement character, reading Latin-1 as UTF-8 or the reverse, Unicode normalisation and case folding, dropping or
 /// replacing invisible characters, treating escape text in a header as an escape. The verifier works on bytes: the two
 /// members of a pair are different signed content.
-const TWINS: [(&[u8], &[u8], &str); 18] = [
+const TWINS: [(&[u8], &[u8], &str); 19] = [
     (b"\xef\xbf\xbd", b"\xff", "U+FFFD / invalid byte ff"),
     (b"\xef\xbf\xbd", b"\x80", "U+FFFD / stray continuation byte"),
     (b"\xef\xbf\xbd", b"\xc3", "U+FFFD / truncated sequence"),
@@ -820,7 +820,11 @@ const TWINS: [(&[u8], &[u8], &str); 18] = [
     (b"\xc0\xaf", b"%2F", "overlong slash / escape text"),
     (b"\xc3\x83\xc2\xa9", b"\xc3\xa9", "double-encoded / single-encoded"),
     (b"\xed\xa0\x80", b"\xef\xbf\xbd\xef\xbf\xbd\xef\xbf\xbd", "surrogate bytes / three U+FFFD"),
+    // not a pair of values but of spellings: the parent carries a control byte, escaped `%0X`; the child is the parent's
+    // wire text with that escape written `%+X`, which a sign-tolerant integer parser reads as the same byte
+    (b"\x0a", b"", SIGN_TOLERANT),
 ];
+const SIGN_TOLERANT: &str = "escape %0X / sign-tolerant %+X";
 
 /// An accepted parent carrying one member of a twin pair in signed content (a signed header value, a query name or value, a
 /// path segment, a folded form value), and the child that carries the other member under the parent's signature.
@@ -849,9 +853,19 @@ fn lossy_twins(seed: u64, shard: u64, n: u64) -> Tally {
             v.extend_from_slice(post.as_bytes());
             v
         };
+        let spelling_pair = label == SIGN_TOLERANT;
+        let ctl = [r.below(16) as u8];
+        let (a, b): (&[u8], &[u8]) = if spelling_pair {
+            (&ctl, &ctl)
+        } else {
+            (a, b)
+        };
         let mut site = r.below(5);
         if site == 4 && !(cfg0.fold && l.form_pairs.is_some()) {
             site = 1;
+        }
+        if spelling_pair && site == 0 {
+            site = 1 + r.below(3);
         }
         let place = |l: &Logical, m: &[u8], r: &mut Rng| -> Logical {
             let mut l2 = l.clone();
@@ -931,7 +945,24 @@ fn lossy_twins(seed: u64, shard: u64, n: u64) -> Tally {
             r: &mut sr,
             level: (i % 2) as u8,
         };
-        let (w, _) = crate::gen::render(&lc, &pcase.cfg, &mut sp, &ov);
+        let (mut w, _) = crate::gen::render(&lc, &pcase.cfg, &mut sp, &ov);
+        if spelling_pair {
+            // same request, same spelling; one `%0X` of the control byte re-written as `%+X` (URL or form body)
+            let want = format!("{:X}", ctl[0]).into_bytes()[0];
+            let edit = |h: &mut Vec<u8>| -> bool {
+                for k in 0..h.len().saturating_sub(2) {
+                    if h[k] == b'%' && h[k + 1] == b'0' && h[k + 2].to_ascii_uppercase() == want {
+                        h[k + 1] = b'+';
+                        return true;
+                    }
+                }
+                false
+            };
+            if !(edit(&mut w.uri) || edit(&mut w.body)) {
+                t.count("twin/escape-not-found");
+                continue;
+            }
+        }
         let case = Case {
             wire: w,
             cfg: pcase.cfg.clone(),
@@ -962,6 +993,7 @@ fn lossy_twins(seed: u64, shard: u64, n: u64) -> Tally {
             t.nontrivial(case.hash());
         } else {
             t.count(&format!("twin/refused_earlier/{}", site_name));
+            t.count(&format!("twin/pair/{}", label));
         }
     }
     t
@@ -985,7 +1017,7 @@ pub fn run(tier: Tier) -> i32 {
     for site in ["header-value", "query-value", "query-name", "path-segment", "form-value"] {
         ctx.gate(&format!("twin pairs (lossy-decoding / normalisation collisions) in a {}: child refused at the signature comparison", site), tally.get(&format!("twin/refused_at_comparison/{}", site)), tier.n(if site == "form-value" { 60 } else { 600 }, if site == "form-value" { 4000 } else { 40_000 }));
     }
-    ctx.gate("twin pairs seen refused at the comparison (of 18)", tally.counters.keys().filter(|k| k.starts_with("twin/pair/")).count() as u64, 18);
+    ctx.gate("twin pairs seen refused (of 19)", tally.counters.keys().filter(|k| k.starts_with("twin/pair/")).count() as u64, 19);
     for car in ["hdr", "qry"] {
         for mode in ["std", "s3", "fold"] {
             ctx.gate(&format!("accepted parents {} {}", car, mode), tally.get(&format!("parents/{}/{}", car, mode)), tier.n(100, 1000));
@@ -1007,7 +1039,7 @@ pub fn run(tier: Tier) -> i32 {
     ctx.exhaustive("signature positions 0-63 on each sig-position parent", true);
     let rep = Report {
         level: "exploration",
-        rule: "W-mutate: accepted W-sign parents (both carriers, all option sets, tokens) × one change each from a 41-entry catalogue (path/query/header/body/form pairs/method/timestamp incl. out-of-range aliases of the same instant and the same digits under another offset/secret/signature incl. decorated and non-hex/SignedHeaders list/Authorization grammar/carrier/server scope/token/raw URI byte), the child carrying the parent's signature; plus every signature position × wrong digits; plus 'twin' pairs — 18 pairs of byte strings that lossy UTF-8 decoding, Latin-1/UTF-8 confusion, Unicode normalisation, case folding or invisible-character handling map to one another — placed in a signed header value, a query name or value, a path segment or a folded form value: the parent carries one member and is accepted, the child carries the other under the parent's signature. Oracles: shadow verifier (on every success the presented signature must equal the reference HMAC, under the key the provider returned in that execution, of the reference string-to-sign of the request as received) and a model-free metamorphic rule for changes that alter signed content by construction. Non-trivial = a child the reference model refuses at the signature stage and the library refused with the signature-mismatch class (i.e. the comparison itself was exercised); distinct by case hash.".into(),
+        rule: "W-mutate: accepted W-sign parents (both carriers, all option sets, tokens) × one change each from a 41-entry catalogue (path/query/header/body/form pairs/method/timestamp incl. out-of-range aliases of the same instant and the same digits under another offset/secret/signature incl. decorated and non-hex/SignedHeaders list/Authorization grammar/carrier/server scope/token/raw URI byte), the child carrying the parent's signature; plus every signature position × wrong digits; plus 'twin' pairs — 18 pairs of byte strings that lossy UTF-8 decoding, Latin-1/UTF-8 confusion, Unicode normalisation, case folding or invisible-character handling map to one another — placed in a signed header value, a query name or value, a path segment or a folded form value (the nineteenth pair is one of spellings: a control byte escaped `%0X` in the parent, the same wire text with `%+X` in the child): the parent carries one member and is accepted, the child carries the other under the parent's signature. Oracles: shadow verifier (on every success the presented signature must equal the reference HMAC, under the key the provider returned in that execution, of the reference string-to-sign of the request as received) and a model-free metamorphic rule for changes that alter signed content by construction. Non-trivial = a child the reference model refuses at the signature stage and the library refused with the signature-mismatch class (i.e. the comparison itself was exercised); distinct by case hash.".into(),
         assumptions: vec![
             "HMAC-SHA256 unforgeability is assumed (cryptographic half of the statement)".into(),
             "reference model calibrated on the AWS vectors".into(),
